@@ -1,34 +1,66 @@
-(* Correspondence definitions for C09: the engine's reported schema and returned values against the model's
-   inferred type class / nullability and evaluation, for projections of modelled expressions. *)
+(* Correspondence definitions for C09: the engine's reported schema (exact model type: integer kind with signedness,
+   DECIMAL precision/scale, DOUBLE, text, boolean, NULL type; nullability) and returned values against the model's
+   inferred type / nullability and evaluation, for projections of modelled expressions; and the engine's reported
+   result schema of relational statements against the model's code-rule schema. *)
 From Coq Require Import List NArith ZArith Bool.
 Import ListNotations.
-From GMS Require Import Base.CorrLib Expr.C09Typing Expr.C09TypingProofs.
+From GMS Require Import Base.CorrLib Expr.C09Typing Expr.C09TypingProofs Rel.C09Rel.
 
-(* type class reported by the engine: integer-like (any integer type, boolean) or text *)
-Inductive tclass := KNum | KText.
-Definition class_of (t : ty) : tclass := match t with TStr => KText | _ => KNum end.
-Definition tclass_eqb (a b : tclass) : bool := match a, b with KNum, KNum | KText, KText => true | _, _ => false end.
+Definition ty_eqb (a b : ty) : bool :=
+  match a, b with
+  | TNull, TNull | TBool, TBool | TDbl, TDbl | TStr, TStr => true
+  | TInt x, TInt y => ikind_eqb x y
+  | TDec p s, TDec q r => Z.eqb p q && Z.eqb s r
+  | _, _ => false
+  end.
+Definition col_eqb (a b : col) : bool := ty_eqb (c_ty a) (c_ty b) && Bool.eqb (c_nullable a) (c_nullable b).
 
-Definition val_eqb (a b : val) : bool :=
+(* SQL value equality: numbers by value whatever the representation, text byte-wise *)
+Definition val_equiv (a b : val) : bool :=
   match a, b with
   | VNull, VNull => true
-  | VInt x, VInt y => Z.eqb x y
-  | VStr x, VStr y => C09Typing.list_eqb x y
+  | VNull, _ | _, VNull => false
+  | VDbl n d, VDbl n' d' => Z.eqb (n * d') (n' * d)
+  | VDbl n d, VInt z | VInt z, VDbl n d => Z.eqb n (z * d)
+  | _, _ => match cmp_vals a b with Some Datatypes.Eq => true | _ => false end
+  end.
+
+Inductive case :=
+(* base schema, projected expressions, input rows; observed: reported column (type, nullable) per expression and the
+   output row of each input row *)
+| CProj (s : schema) (es : list expr) (rows : list row) (osch : schema) (outs : list row)
+(* a relational statement: the schema the engine reports must be the code-rule schema of the model, and the rows the
+   model's rows (as a bag when [sorted] is false) *)
+| CRel (q : rel) (osch : schema) (outs : list row).
+
+(* a cell the model has no value for (overflow, unmodelled conversion) is not compared *)
+Definition cell_ok (s : schema) (r : row) (e : expr) (o : val) : bool :=
+  match eval s r e with Ok v => val_equiv v o | Err => true end.
+Fixpoint cells_ok (s : schema) (r : row) (es : list expr) (os : row) : bool :=
+  match es, os with
+  | [], [] => true
+  | e :: es', o :: os' => cell_ok s r e o && cells_ok s r es' os'
   | _, _ => false
   end.
 
-(* base schema, projected expressions, input rows; observed: (class, nullable) per output column and the output
-   row of each input row (None: the engine returned an error for the statement) *)
-Definition case : Type := (schema * list expr * list row * list (tclass * bool) * option (list row))%type.
+Definition row_equiv (a b : row) : bool := CorrLib.list_eqb val_equiv a b.
+Fixpoint remove_row (x : row) (l : list row) : option (list row) :=
+  match l with [] => None | y :: t => if row_equiv x y then Some t else option_map (cons y) (remove_row x t) end.
+Fixpoint bag_eq (a b : list row) : bool :=
+  match a with
+  | [] => match b with [] => true | _ => false end
+  | x :: t => match remove_row x b with Some b' => bag_eq t b' | None => false end
+  end.
 
 Definition ok (c : case) : bool :=
-  let '(s, es, rows, osch, oout) := c in
-  forallb (well_typed s) es && forallb (conforms s) rows &&
-  CorrLib.list_eqb (fun a b => tclass_eqb (fst a) (fst b) && Bool.eqb (snd a) (snd b))
-           (map (fun c => (class_of (c_ty c), c_nullable c)) (project_schema s es)) osch &&
-  match oout with
-  | None => existsb (fun r => match eval_all r es with None => true | Some _ => false end) rows
-  | Some outs => CorrLib.list_eqb (fun r o => match eval_all r es with Some x => CorrLib.list_eqb val_eqb x o | None => false end) rows outs
+  match c with
+  | CProj s es rows osch outs =>
+    forallb (conforms s) rows &&
+    CorrLib.list_eqb col_eqb (project_schema s es) osch &&
+    CorrLib.list_eqb (fun r o => cells_ok s r es o) rows outs
+  | CRel q osch outs =>
+    CorrLib.list_eqb col_eqb (schema_of false q) osch &&
+    match eval_rel q with Some rows => bag_eq rows outs | None => true end
   end.
 
 Definition mismatches (cs : list (N * case)) : list N :=
